@@ -23,6 +23,7 @@ layout keys (all optional except bits/events):
   stext     list of (k, v) for a supplemental TEXT segment, or None
   stext_pos 'after' (default: after DATA) | 'before'
   stext_raw  the supplemental segment as a raw string (overrides stext; may be ill-formed)
+  analysis_raw  the ANALYSIS segment as a raw string (overrides analysis; may be ill-formed)
   stext_zero_length  with an empty stext_raw: declare a window of no bytes (end = begin - 1) instead of offsets 0, 0
   analysis  list of (k, v) or None; analysis_pos 'after'; analysis_offsets 'header' | 'text'
   tot, par  overrides of the declared $TOT / $PAR (for corruption)
@@ -133,6 +134,8 @@ def _build(layout):
         sbytes = layout['stext_raw'].encode('latin-1')
     abytes = (textref.encode(analysis, d, leading=layout.get('analysis_leading', True))
               .encode('latin-1') if analysis else b'')
+    if layout.get('analysis_raw') is not None:       # the bytes of the ANALYSIS segment as given (possibly ill-formed)
+        abytes = layout['analysis_raw'].encode('latin-1')
 
     order = layout.get('seg_order')
     if order is None:
